@@ -8,7 +8,7 @@ from decaylanguage import DecayChain, DecayMode
 from decaylanguage.utils import DescriptorFormat
 
 from mc import shapes
-from mc.core import pmap, short_hash
+from mc.core import pmap, short_hash, run_tasks
 from ref import chains
 
 NAMESETS = [
@@ -137,8 +137,7 @@ def run(ctx):
                 tasks.append((sh[i:i + 200], naming, pats))
     ctx.log(f"{total} chain shapes x name sets x bracketing patterns, all input orders for <=3 decaying particles")
     ctx.rng.shuffle(tasks)
-    for r in pmap(work, tasks, ctx.workers):
-        ctx.absorb(r)
+    run_tasks(ctx, work, tasks)
     ctx.count(states=total * len(NAMESETS), transitions=ctx.traces)
     ctx.part("descriptors", shapes=total, name_sets=len(NAMESETS), patterns=PATTERNS, complete=ctx.thorough)
     ex = next(itertools.islice(shapes.single_chains(2), 300, None))
